@@ -463,7 +463,9 @@ def parse_repo_post(prop):
 
 
 def parse_repository_unit(prop):
-    return Unit(f'{prop}.parse_repository', UTILS_PY, 'parse_repository', parse_repo_setup, parse_repo_post(prop), prop=prop)
+    u = Unit(f'{prop}.parse_repository', UTILS_PY, 'parse_repository', parse_repo_setup, parse_repo_post(prop), prop=prop)
+    u.native = ('parse_repository',)
+    return u
 
 
 # ------------------------------------------------------------------ __main__._instantiate_backend: which options reach the backend constructor
